@@ -207,6 +207,62 @@ def writer_files(item):
     return res
 
 
+def writer_inplace(item):
+    """Two files written by path with index_file=True into one directory, under names that share a stem or lack the .tdms
+    extension; each is then read where it lies (the reader looks for <path>_index) and must read as its own bytes read without
+    any index; the index must lie at <path>_index."""
+    from nptdms import TdmsWriter
+    from .. import writerprog as W
+    ai, seed = item
+    res = {'counters': {'files': 0, 'reads': 0, 'nontrivial': 0}, 'outcomes': {}, 'violations': [], 'samples': []}
+    shapes = W.call_shapes()
+    assign = W.assignments()[ai]
+
+    def write(path, seq):
+        counters, instances = {}, {}
+        with TdmsWriter(path, index_file=True) as w:
+            for i in seq:
+                objs, _m = W.build_objects(shapes[i], assign, counters, instances)
+                w.write_segment(objs)
+    for first, second in (('run.tdms', 'run.dat'), ('run', 'run.tdms'), ('a.b.tdms', 'a.b'), ('d.tdms', 'd.tdms.bak'), ('e.TDMS', 'e.tdms')):
+        tmp = H.scratch('verif_c09p_')
+        try:
+            ok = True
+            for name, seq in ((first, [17, 7]), (second, [10, 4])):
+                try:
+                    r = H.guarded(write, os.path.join(tmp, name), seq)
+                except W.Skip:
+                    ok = False
+                    break
+                if r[0] != 'ok':
+                    ok = False
+                    break
+            if not ok:
+                continue
+            for name in (first, second):
+                path = os.path.join(tmp, name)
+                res['counters']['files'] += 1
+                res['counters']['nontrivial'] += 1
+                res['counters']['reads'] += 2
+                bad = None
+                if not os.path.exists(path + '_index'):
+                    bad = 'no index file at <path>_index for %s (directory holds %s)' % (name, sorted(os.listdir(tmp)))
+                else:
+                    with open(path, 'rb') as f:
+                        data = f.read()
+                    plain = H.guarded(lambda: summary(H.TdmsFile.read(io.BytesIO(data))))
+                    there = H.guarded(lambda: summary(H.TdmsFile.read(path)))
+                    if plain != there:
+                        bad = 'reading %s where it lies differs from reading its bytes without an index: %s' % (name, _diff(plain, there))
+                if bad:
+                    res['violations'].append({'case': {'inplace': [first, second], 'which': name, 'assign': list(assign), 'ai': ai},
+                                              'expected': 'index at <path>_index, transparent', 'observed': bad,
+                                              'signature': {'kind': 'writer-index-location', 'names': [first, second]}})
+        finally:
+            shutil.rmtree(tmp, ignore_errors=True)
+    return res
+
+
 def run(ctx):
     from ..run import merge
     fl = F.f3_files(ctx.tier)
@@ -221,7 +277,8 @@ def run(ctx):
     items += [(n, h, ctx.seed, ctx.tier, True) for n, h in trunc]
     m = merge(ctx.map(run_file, items))
     from .. import writerprog as W
-    mw = merge(ctx.map(writer_files, [(ai, ctx.seed) for ai in range(len(W.assignments()))]))
+    mw = merge(ctx.map(writer_files, [(ai, ctx.seed) for ai in range(len(W.assignments()))]) +
+               ctx.map(writer_inplace, [(ai, ctx.seed) for ai in range(0, len(W.assignments()), 5)]))
     c = m['counters']
     vac = []
     if not c.get('index_only'):
@@ -239,6 +296,10 @@ def run(ctx):
 
 
 def replay(case):
+    if 'inplace' in case:
+        r = writer_inplace((case['ai'], 0))
+        hits = [v for v in r['violations'] if v['case']['inplace'] == case['inplace'] and v['case']['which'] == case['which']]
+        return bool(hits), 'index at <path>_index, transparent', hits[0]['observed'] if hits else 'transparent'
     if 'writer_seq' in case:
         from .. import writerprog as W
         ai = [list(a) for a in W.assignments()].index(case['assign'])
